@@ -41,6 +41,31 @@ FMT = {"float16": (0x7C00, 0x03FF, 0x0200), "bfloat16": (0x7F80, 0x007F, 0x0040)
        "complex128": (0x7FF0000000000000, 0x000FFFFFFFFFFFFF, 0x0008000000000000)}
 
 
+UNOBS = "<unobservable>"
+UNOBSERVABLE: dict = {}  # facet -> why; reported with ck.broken at the end of the run, never a crash, never a verdict
+
+
+def peek(facet, fn):
+    """Read a spox internal. A failure to *observe* (renamed attribute, changed type…) is not a verdict."""
+    try:
+        return fn()
+    except (AttributeError, KeyError, IndexError, ImportError, TypeError, StopIteration, AssertionError) as e:
+        UNOBSERVABLE.setdefault(facet, f"{type(e).__name__}: {e}"[:200])
+        return UNOBS
+
+
+def _imp(mod, attr=None):
+    """Import a (possibly internal) module / name; None (and a note) if it is not there any more."""
+    import importlib
+
+    try:
+        m = importlib.import_module(mod)
+        return m if attr is None else getattr(m, attr)
+    except Exception as e:  # noqa: BLE001
+        UNOBSERVABLE.setdefault(f"{mod}{':' + attr if attr else ''}", f"{type(e).__name__}: {e}"[:200])
+        return None
+
+
 def comps(d):
     return 2 if d in DT_COMPLEX else 1
 
@@ -535,13 +560,12 @@ class Site:
         self.name, self.kind, self.table_site, self.call, self.read, self.dtype = name, kind, table_site, call, read, dtype
 
 
-def _build_bytes(var, args=()):
-    from spox._graph import results
+def _build_bytes(var, args=(), names=None):
+    """Serialized ModelProto through the public `spox.build`."""
+    import spox
 
-    g = results(y=var)
-    if args:
-        g = g.with_arguments(*args)
-    return g.to_onnx_model().SerializeToString()
+    names = names or [f"in{i}" for i in range(len(args))]
+    return spox.build(dict(zip(names, args)), {"y": var}).SerializeToString()
 
 
 def _first_attr_tensor(model_bytes, op_type, attr):
@@ -572,25 +596,32 @@ def _obs_array(a):
 def sites():
     import numpy as np
 
-    import spox._attributes as A
-    import spox._future as fut
     import spox.opset.ai.onnx.v17 as op
     from spox import Tensor
-    from spox._graph import arguments, initializer
+
+    class _Missing:
+        """Stands for an internal module that is gone: any use raises AttributeError (-> site dropped)."""
+
+        def __getattr__(self, k):
+            raise AttributeError(k)
+
+    A = _imp("spox._attributes") or _Missing()
+    fut = _imp("spox._future") or _Missing()
+    arguments = _imp("spox._graph", "arguments")
+    initializer = _imp("spox._graph", "initializer")
 
     out = []
 
     def const_read(attr="value", optype="Constant"):
         def read(v):
             a = _first_attr_tensor(_build_bytes(v), optype, attr)
-            val = v._get_value()
-            return {"model": _obs_tensor(W.tensor(a["t"])), "value": _obs_array(val)}
+            return {"model": _obs_tensor(W.tensor(a["t"])), "value": peek("Var._get_value", lambda: _obs_array(v._get_value()))}
         return read
 
     def init_read(v):
         mb = _build_bytes(op.identity(v))
         g = W.graph_parts(W.graph_of_model(mb))
-        return {"model": _obs_tensor(g["initializers"][0]), "value": _obs_array(v._get_value())}
+        return {"model": _obs_tensor(g["initializers"][0]), "value": peek("Var._get_value", lambda: _obs_array(v._get_value()))}
 
     out.append(Site("constant(value=arr)", "flat", "constant(value)", lambda a: op.constant(value=a), const_read()))
     out.append(Site("const(arr)", "flat", "const(ndarray)", lambda a: op.const(a), const_read()))
@@ -605,10 +636,10 @@ def sites():
         return x
 
     def arg_read(x):
-        mb = _build_bytes(op.identity(x), (x,))
+        mb = _build_bytes(op.identity(x), (x,), ["x"])
         g = W.graph_parts(W.graph_of_model(mb))
         t = next(t for t in g["initializers"] if t["name"] == "x")
-        return {"model": _obs_tensor(t), "value": _obs_array(x._op.attrs.default.value)}
+        return {"model": _obs_tensor(t), "value": peek("Argument.default.value", lambda: _obs_array(x._op.attrs.default.value))}
 
     out.append(Site("arguments(x=arr)", "flat", "arguments(default)", arg_call, arg_read))
 
@@ -617,20 +648,20 @@ def sites():
 
     def cos_read(v):
         a = _first_attr_tensor(_build_bytes(v), "ConstantOfShape", "value")
-        return {"model": _obs_tensor(W.tensor(a["t"])), "value": _obs_array(v._op.attrs.value.value)}
+        return {"model": _obs_tensor(W.tensor(a["t"])), "value": peek("node.attrs.value", lambda: _obs_array(v._op.attrs.value.value))}
 
     out.append(Site("constant_of_shape(value=arr)", "flat1", "AttrTensor", cos_call, cos_read))
 
     def at_read(a):
-        p = W.attribute(a._to_onnx().SerializeToString())
-        return {"model": _obs_tensor(W.tensor(p["t"])), "value": _obs_array(a.value)}
+        return {"model": peek("Attr._to_onnx", lambda: _obs_tensor(W.tensor(W.attribute(a._to_onnx().SerializeToString())["t"]))),
+                "value": peek("Attr.value", lambda: _obs_array(a.value))}
 
     out.append(Site("AttrTensor(arr)", "flat", "AttrTensor", lambda a: A.AttrTensor(a, "v"), at_read))
 
     # nested lists / lists of arrays
     def nested_read(v):
         a = _first_attr_tensor(_build_bytes(v), "Constant", "value")
-        return {"model": _obs_tensor(W.tensor(a["t"])), "value": _obs_array(v._get_value())}
+        return {"model": _obs_tensor(W.tensor(a["t"])), "value": peek("Var._get_value", lambda: _obs_array(v._get_value()))}
 
     out.append(Site("const(nested list)", "nestlist", "const(nested list)", lambda l: op.const(l), nested_read))
     out.append(Site("const(nested list, dtype)", "nestlist", "const(nested list)", lambda l: op.const(l, np.int32), nested_read))
@@ -638,8 +669,8 @@ def sites():
                     lambda l: fut.initializer(l), init_read))
 
     def ats_read(a):
-        p = W.attribute(a._to_onnx().SerializeToString())
-        return {"model": [_obs_tensor(W.tensor(t)) for t in p["tensors"]], "value": [_obs_array(x) for x in a.value]}
+        return {"model": peek("Attr._to_onnx", lambda: [_obs_tensor(W.tensor(t)) for t in W.attribute(a._to_onnx().SerializeToString())["tensors"]]),
+                "value": peek("Attr.value", lambda: [_obs_array(x) for x in a.value])}
 
     out.append(Site("AttrTensors([arr…])", "nestarr", "AttrTensors", lambda l: A.AttrTensors(l, "v"), ats_read))
 
@@ -647,11 +678,13 @@ def sites():
     def list_site(name, table, call, optype, attr, field, conv):
         def read(v):
             a = _first_attr_tensor(_build_bytes(v), optype, attr)
-            stored = getattr(v._op.attrs, attr).value
-            obs = {"model": conv(a[field]), "value": conv(list(stored)) if field != "floats" else
-                   [f32_bits_of_double(float(x)) for x in stored]}
+            obs = {"model": conv(a[field]), "value": peek("node.attrs.value", lambda: (
+                conv(list(getattr(v._op.attrs, attr).value)) if field != "floats" else
+                [f32_bits_of_double(float(x)) for x in getattr(v._op.attrs, attr).value]))}
             # the propagated value of the Constant: a 1-d int64 / float32 / str tensor of the same items
-            pv = _obs_array(v._get_value())
+            pv = peek("Var._get_value", lambda: _obs_array(v._get_value()))
+            if pv is UNOBS:
+                return obs
             want_d = {"ints": "int64", "floats": "float32", "strings": "str"}[field]
             if field == "strings":
                 items = ["".join(map(chr, bytes(b).decode("utf-8").encode("utf-32-le")[::4])) if False else bytes(b).decode("utf-8") for b in pv["data"]]
@@ -671,37 +704,45 @@ def sites():
     out.append(list_site("constant(value_strings=list)", "AttrStrings", lambda l: op.constant(value_strings=l),
                          "Constant", "value_strings", "strings", ident))
 
+    perm_args = {}
+
     def perm_call(l):
-        (x,) = arguments(x=Tensor(np.float32, (1,) * len(l)))
-        return op.transpose(x, perm=l)
+        from spox import argument
+
+        x = argument(Tensor(np.float32, (1,) * len(l)))
+        v = op.transpose(x, perm=l)
+        perm_args[id(v)] = (x, v)
+        return v
 
     def perm_read(v):
-        mb = _build_bytes(v, (v._op.inputs.data,))
+        mb = _build_bytes(v, (perm_args[id(v)][0],))
         a = _first_attr_tensor(mb, "Transpose", "perm")
-        return {"model": a["ints"], "value": list(v._op.attrs.perm.value)}
+        return {"model": a["ints"], "value": peek("node.attrs.value", lambda: list(v._op.attrs.perm.value))}
 
     out.append(Site("transpose(perm=list)", "perm", "AttrInt64s", perm_call, perm_read))
 
     def ai_read(a):
-        p = W.attribute(a._to_onnx().SerializeToString())
-        return {"model": p["ints"], "value": list(a.value)}
+        return {"model": peek("Attr._to_onnx", lambda: W.attribute(a._to_onnx().SerializeToString())["ints"]),
+                "value": peek("Attr.value", lambda: list(a.value))}
 
     out.append(Site("AttrInt64s(list)", "scalars:ints", "AttrInt64s", lambda l: A.AttrInt64s(l, "v"), ai_read))
     out.append(Site("AttrInt64s.maybe(list)", "scalars:ints", "_AttrIterable.maybe",
                     lambda l: A.AttrInt64s.maybe(l, "v"), ai_read))
 
     # variadic inputs: a list of Vars (indices into a pool of named arguments)
-    pool = arguments(**{f"a{i}": Tensor(np.float32, (2,)) for i in range(4)})
+    from spox import argument
+
+    pool = tuple(argument(Tensor(np.float32, (2,))) for _ in range(4))
 
     def var_make(idx):
         return [pool[i] for i in idx]
 
     def var_read(v):
-        mb = _build_bytes(v, pool)
+        mb = _build_bytes(v, pool, [f"a{i}" for i in range(len(pool))])
         g = W.graph_parts(W.graph_of_model(mb))
         node = next(n for n in g["nodes"] if n["op_type"] in ("Concat", "Max", "SequenceConstruct"))
-        return {"model": node["inputs"], "value": [f"a{pool.index(x)}" for x in v._op.inputs.get_fields()[
-            "inputs" if "inputs" in v._op.inputs.get_fields() else "data_0"]]}
+        return {"model": node["inputs"], "value": peek("node.inputs", lambda: [
+            f"a{pool.index(x)}" for x in v._op.inputs.get_fields()["inputs" if "inputs" in v._op.inputs.get_fields() else "data_0"]])}
 
     s = Site("concat(list of Vars)", "vars", "BaseVars.variadic", lambda l: op.concat(l, axis=0), var_read)
     s.var_make = var_make
@@ -709,7 +750,25 @@ def sites():
     s = Site("max(list of Vars)", "vars", "BaseVars.variadic", lambda l: op.max(l), var_read)
     s.var_make = var_make
     out.append(s)
-    return out
+    # a site whose constructor / observation is not reachable any more is dropped (and noted), not crashed on
+    import random as _random
+
+    usable = []
+    for site in out:
+        try:
+            trial = gen_content(_random.Random(0), site.kind)
+            site.read(site.call(make_caller_object(site, trial)))
+            usable.append(site)
+        except (AttributeError, ImportError, NameError, KeyError, StopIteration) as e:
+            UNOBSERVABLE.setdefault(f"site {site.name}", f"{type(e).__name__}: {e}"[:200])
+        except TypeError as e:
+            if arguments is None or initializer is None:
+                UNOBSERVABLE.setdefault(f"site {site.name}", f"{type(e).__name__}: {e}"[:200])
+            else:
+                usable.append(site)  # a real TypeError on a valid value is for the oracle to report
+        except Exception:  # noqa: BLE001  anything else is a behaviour of spox on a valid value: let the oracle see it
+            usable.append(site)
+    return usable
 
 
 def gen_content(rng, kind):
@@ -855,6 +914,8 @@ def make_caller_object(site, content):
 
 
 def same_obs(a, b) -> bool:
+    if a is UNOBS or b is UNOBS or a == UNOBS or b == UNOBS:
+        return True
     if isinstance(a, dict) and "data" in a and isinstance(b, dict) and "data" in b:
         if a["dtype"] != b["dtype"] or a["shape"] != b["shape"]:
             return False
@@ -1015,13 +1076,23 @@ def embed_case(case):
     """Run one embedding on the real code and judge it against the array itself. -> [(key, what)]"""
     import numpy as np
 
-    import spox._attributes as A
-    import spox._future as fut
     import spox.opset.ai.onnx.v17 as op
     from spox import Tensor
-    from spox._graph import arguments, initializer
 
     spec, route = case["arr"], case["route"]
+    need = {"initializer": ("spox._graph", "initializer"), "arg_default": ("spox._graph", "arguments"),
+            "future_initializer": ("spox._future", "initializer"), "future_initializer_dtype": ("spox._future", "initializer"),
+            "attr_tensor_class": ("spox._attributes", "AttrTensor")}.get(route)
+    handle = _imp(*need) if need else None
+    if need and handle is None:
+        return [("unobservable", f"{need[0]}.{need[1]} is not there")]
+    initializer = arguments = handle
+
+    class fut:  # noqa: N801
+        initializer = handle
+
+    class A:  # noqa: N801
+        AttrTensor = handle
     arr = make_array(spec)
     exp_d = spec["dtype"]
     exp_shape = list(spec["shape"])
@@ -1059,7 +1130,10 @@ def embed_case(case):
             var = op.constant_of_shape(op.const(np.array([2], dtype=np.int64)), value=arr)
         elif route == "attr_tensor_class":
             at = A.AttrTensor(arr, "value")
-            tensor = W.tensor(W.attribute(at._to_onnx().SerializeToString())["t"])
+            tb = peek("Attr._to_onnx", lambda: W.attribute(at._to_onnx().SerializeToString())["t"])
+            if tb is UNOBS:
+                return [("unobservable", "AttrTensor._to_onnx")]
+            tensor = W.tensor(tb)
         if exp_d == "str" and route in ("const_dtype", "future_initializer_dtype"):
             exp = [list("".join(map(chr, s)).encode("utf-8")) for s in exp]
         if var is not None:
@@ -1072,7 +1146,7 @@ def embed_case(case):
                 a = _first_attr_tensor(_build_bytes(var), "ConstantOfShape", "value")
                 tensor = W.tensor(a["t"]) if a else None
             elif route == "arg_default":
-                g = W.graph_parts(W.graph_of_model(_build_bytes(op.identity(var), (var,))))
+                g = W.graph_parts(W.graph_of_model(_build_bytes(op.identity(var), (var,), ["x"])))
                 tensor = next((t for t in g["initializers"] if t["name"] == "x"), None)
             else:
                 g = W.graph_parts(W.graph_of_model(_build_bytes(op.identity(var))))
@@ -1093,7 +1167,7 @@ def embed_case(case):
         want = Tensor(np_dtype(exp_d) if exp_d != "str" else np.dtype(str), tuple(exp_shape))
         if var.type != want:
             probs.append(("vartype", f"Var.type is {var.type}, expected {want}"))
-        if route != "arg_default":
+        if route != "arg_default" and hasattr(var, "_get_value"):
             try:
                 val = var._get_value()
                 o = _obs_array(val)
@@ -1148,14 +1222,13 @@ def attr_kind_cases():
     """(description, builder, expectation) through real operator constructors and the classes."""
     import numpy as np
 
-    import spox._attributes as A
     import spox.opset.ai.onnx.v17 as op
-    from spox import Tensor
-    from spox._graph import arguments
+    from spox import Tensor, argument
 
+    A = _imp("spox._attributes")
     T = W.ATTR_TYPE
-    (x,) = arguments(x=Tensor(np.float32, (2, 3)))
-    (c,) = arguments(c=Tensor(np.bool_, ()))
+    x = argument(Tensor(np.float32, (2, 3)))
+    c = argument(Tensor(np.bool_, ()))
 
     def node_attr(var, args, optype, name):
         return _first_attr_tensor(_build_bytes(var, args), optype, name)
@@ -1197,8 +1270,11 @@ def attr_kind_cases():
                   {"name": "type", "type": T["TYPE_PROTO"], "has": "tp"}))
 
     def cls_attr(a):
-        return W.attribute(a._to_onnx().SerializeToString())
+        return peek("Attr._to_onnx", lambda: W.attribute(a._to_onnx().SerializeToString()))
 
+    if A is None or not all(hasattr(A, n) for n in ("AttrTensors", "AttrFloat32", "AttrStrings")):
+        UNOBSERVABLE.setdefault("spox._attributes classes", "AttrTensors/AttrFloat32/AttrStrings not all present")
+        return cases
     cases.append(("AttrTensors([int64[2], str[1]])", lambda: cls_attr(A.AttrTensors([np.array([1, 2]), np.array(["ü"])], "ts")),
                   {"name": "ts", "type": T["TENSORS"], "tensors": [("int64", [2], [1, 2]), ("str", [1], [list("ü".encode())])]}))
     cases.append(("AttrTensors([])", lambda: cls_attr(A.AttrTensors([], "ts")), {"name": "ts", "type": T["TENSORS"], "tensors": []}))
@@ -1248,6 +1324,8 @@ def judge_const_prop(build, d, shape, data):
 
 
 def judge_attr(a, exp):
+    if a is UNOBS:
+        return None
     if a is None:
         return "attribute missing from the built node"
     if a["name"] != exp["name"]:
@@ -1283,20 +1361,20 @@ def judge_attr(a, exp):
 def wrong_kind_cases():
     import numpy as np
 
-    import spox._attributes as A
     import spox.opset.ai.onnx.v17 as op
-    from spox import Tensor
-    from spox._graph import arguments, initializer
+    from spox import Tensor, argument
 
-    (x,) = arguments(x=Tensor(np.float32, (2, 3)))
+    A = _imp("spox._attributes")
+    initializer = _imp("spox._graph", "initializer")
+    x = argument(Tensor(np.float32, (2, 3)))
     cl = [
-        ("AttrInt64", [1.5, "a", None, [1], np.array([1, 2]), 2**63, b"x"]),
-        ("AttrFloat32", ["a", None, [1.0], b"x", 10**400]),
+        ("AttrInt64", [1.5, "a", None, [1], np.array([1, 2]), 2**63, b"x", "2", b"2", np.array(2), 2.0, "0x2"]),
+        ("AttrFloat32", ["a", None, [1.0], b"x", 10**400, "0.5", b"2", "nan", np.array(0.5), np.array([0.5])]),
         ("AttrString", [1, 1.5, None, ["a"]]),
         ("AttrTensor", [5, 1.5, "a", None, [1, 2], (1, 2), {"a": 1}, np.array([None], dtype=object),
                         np.zeros(1, dtype="M8[s]")]),
-        ("AttrInt64s", [5, None, [1.5], ["a"], [None], [[1]], [1, "a"], [2**63], 1.5]),
-        ("AttrFloat32s", [5, None, ["a"], [None], [[1.0]], [1.0, "a"]]),
+        ("AttrInt64s", [5, None, [1.5], ["a"], [None], [[1]], [1, "a"], [2**63], 1.5, ["1"], [b"1"], "12", [2.0]]),
+        ("AttrFloat32s", [5, None, ["a"], [None], [[1.0]], [1.0, "a"], ["0.5"], [b"2"], "1.5"]),
         ("AttrStrings", [5, None, [1], [None], [["a"]], ["a", 1]]),
         ("AttrTensors", [5, None, [1], ["a"], [[1, 2]], [np.array([None], dtype=object)]]),
         ("AttrDtype", [None, "foo", object, np.dtype("M8[s]"), np.dtype("S3"), np.longdouble, np.dtype("V4"),
@@ -1306,14 +1384,19 @@ def wrong_kind_cases():
     ]
     cases = []
     for cname, vals in cl:
+        if A is None or not hasattr(A, cname):
+            UNOBSERVABLE.setdefault(f"spox._attributes.{cname}", "class is not there")
+            continue
         for i, v in enumerate(vals):
             cases.append((f"{cname}({_short(v)})", cname, _vkind(v), (lambda cname=cname, v=v: getattr(A, cname)(v, "n"))))
     calls = [
         ("constant(value=5)", "AttrTensor", "int", lambda: op.constant(value=5)),
         ("constant(value=(1, 2))", "AttrTensor", "tuple", lambda: op.constant(value=(1, 2))),
         ("constant(value='a')", "AttrTensor", "str", lambda: op.constant(value="a")),
-        ("initializer(5)", "AttrTensor", "int", lambda: initializer(5)),
-        ("initializer([1, 2])", "AttrTensor", "list", lambda: initializer([1, 2])),
+        ("constant(value_float='0.5')", "AttrFloat32", "str", lambda: op.constant(value_float="0.5")),
+        ("constant(value_int='2')", "AttrInt64", "str", lambda: op.constant(value_int="2")),
+        ("concat([x], axis='0')", "AttrInt64", "str", lambda: op.concat([x], axis="0")),
+        ("leaky_relu(x, alpha=array(0.5))", "AttrFloat32", "ndarray", lambda: op.leaky_relu(x, alpha=np.array(0.5))),
         ("constant(value_int=1.5)", "AttrInt64", "float", lambda: op.constant(value_int=1.5)),
         ("constant(value_ints=[1.5])", "AttrInt64s", "list", lambda: op.constant(value_ints=[1.5])),
         ("constant(value_ints=3)", "AttrInt64s", "int", lambda: op.constant(value_ints=3)),
@@ -1332,6 +1415,9 @@ def wrong_kind_cases():
         ("concat([x, 1], axis=0)", "variadic", "list", lambda: op.concat([x, 1], axis=0)),
         ("concat(5, axis=0)", "variadic", "int", lambda: op.concat(5, axis=0)),
     ]
+    if initializer is not None:
+        calls += [("initializer(5)", "AttrTensor", "int", lambda: initializer(5)),
+                  ("initializer([1, 2])", "AttrTensor", "list", lambda: initializer([1, 2]))]
     return cases + calls
 
 
@@ -1366,6 +1452,9 @@ def run_oracle(ck):
         stats["embed"] += 1
         ck.count(("embed", case["route"], case["arr"]["dtype"], tuple(case["arr"]["shape"]), case["arr"].get("layout")))
         for key, what in probs:
+            if key == "unobservable":
+                UNOBSERVABLE.setdefault(f"route {case['route']}", what)
+                continue
             d = case.get("req_dtype") or case["arr"]["dtype"]
             ck.failure(f"embed:{case['route']}:{d}:{key}", f"{case['route']}: {what}", case)
     # F2 attribute kinds
@@ -1433,30 +1522,38 @@ def shrink_capture(site, case):
 def run(ck: core.Check):
     from translator import c10_tables
 
-    info = c10_tables.generate()
-    ck.cov["generated"] = {
-        "tensor_enum": {k: v["enum"] for k, v in info["tensor_enum"].items()},
-        "attr_kinds": {k: v["kind"] for k, v in info["attr_kinds"]["rows"].items()},
-        "guards": {k: info["attr_kinds"][k] for k in ("tensor_guard", "validate_catch_all", "dtype_catches", "dtype_spec_catches", "unknown", "missing")},
-        "capture": {r["site"]: f"{r['kind']}:{r['ast']}/{r['observed']}" for r in info["capture"]},
-    }
-    if info["capture_probe_errors"]:
-        ck.notes.append(f"capture probes that raised: {info['capture_probe_errors']}")
+    try:
+        info = c10_tables.generate()
+    except Exception as e:  # noqa: BLE001  (the translator degrades by itself; this is the last line of defence)
+        info = None
+        ck.broken("translator", "C10 tables not extractable", f"{type(e).__name__}: {e}"[:300])
+    if info is not None:
+        ck.cov["generated"] = {
+            "tensor_enum": {k: v["enum"] for k, v in info["tensor_enum"].items()},
+            "attr_kinds": {k: v["kind"] for k, v in info["attr_kinds"]["rows"].items()},
+            "guards": {k: info["attr_kinds"].get(k) for k in ("tensor_guard", "validate_catch_all", "dtype_catches", "dtype_spec_catches", "unknown", "missing")},
+            "capture": {r["site"]: f"{r['kind']}:{r['ast']}/{r['observed']}" for r in info["capture"]},
+        }
+        for what, why in info.get("errors", {}).items():
+            ck.broken("translator", f"C10 {what} not extractable", why)
+        if info["capture_probe_errors"]:
+            ck.notes.append(f"capture probes that raised: {info['capture_probe_errors']}")
     ck.lean(["SpoxModel.Props.C10"], audit="SpoxModel.Audit.C10")
     if ck.thorough:
         ck.leanchecker(["SpoxModel.Props.C10"])
     q = platform_quietens()
-    try:
-        run_enc_correspondence(ck, q)
-        ck.log("encoding correspondence done")
-        run_attr_correspondence(ck, q)
-        ck.log("attribute correspondence done")
-        run_capture_correspondence(ck, info)
-        ck.log("capture correspondence done")
-    except RuntimeError as e:
-        ck.broken("correspondence", "C10 driver", str(e)[:300])
+    for facet, fn in (("fromArray/toArray", lambda: run_enc_correspondence(ck, q)),
+                      ("Attr constructors", lambda: run_attr_correspondence(ck, q)),
+                      ("capture", lambda: run_capture_correspondence(ck, info) if info else None)):
+        try:
+            fn()
+            ck.log(f"{facet} correspondence done")
+        except Exception as e:  # noqa: BLE001  a failure to observe is not a verdict and must not stop the oracle
+            ck.broken("correspondence", f"C10 {facet} not observable", f"{type(e).__name__}: {e}"[:300])
     run_oracle(ck)
     ck.log("oracle done")
+    for facet, why in UNOBSERVABLE.items():
+        ck.broken("correspondence", f"C10 {facet} not observable", why)
     ck.exhaustive = False
     ck.rule = (
         "encoding: all 2^8 patterns of int8/uint8, both of bool, "
